@@ -166,12 +166,16 @@ theorem inv_closeBlock {c : Cfg α} {s : St α} (b : Base c s)
     exact ⟨h.1, h.2, hc h.1 h.2⟩
   · rename_i h
     simp at h
-    apply inv_closeDestPhase b
+    have b' : Base c { s with blk := s.blk + 1 } :=
+      ⟨b.dstName, b.srcName, b.srcLinked, b.openLinked, b.pend, b.sparse, b.preMain⟩
+    apply inv_closeDestPhase b'
     · intro hdo hs h1 h2
       have := hd hs h1 h2
-      simp [hdo] at this
+      have hdo' : s.destOpen = false := hdo
+      simp [hdo'] at this
     · intro hdo hs
-      exact absurd hdo (by simpa using h hs)
+      have hdo' : s.destOpen = true := hdo
+      exact absurd hdo' (by simpa using h hs)
 
 theorem inv_ioFail {c : Cfg α} {s : St α} (b : Base c s) : Inv c (ioFail c s) := by
   unfold ioFail
